@@ -437,8 +437,10 @@ class Gen:
     # ---------------------------------------------------------------- relations
     def make_relations(self):
         rng, P = self.rng, self.P
-        srcs = list(self.tdef) + list(self.mdef)  # not aliases: see findings (relations added on a provided alias are dropped)
-        dsts = srcs + [m["ref"] for m in self.methods if m["ref"] not in self.mdef]
+        # sources and destinations: transactions, defined methods and provide()-aliases
+        # (relations declared ON an alias are honoured since fix 45725ee; F-core1-1 is a regression witness)
+        srcs = list(self.tdef) + list(self.mdef) + [m["ref"] for m in self.methods if m["ref"] not in self.mdef]
+        dsts = list(srcs)
         cands = []
         for _ in range(_rint(rng, P["n_conflict"]) * 3):
             a, b = rng.choice(srcs), rng.choice(dsts)
